@@ -8,7 +8,7 @@ from hpotk.ontology import create_minimal_ontology  # noqa: E402
 from hpotk.annotations import AnnotatedItem, AnnotatedItemContainer  # noqa: E402
 from hpotk.algorithm.similarity import calculate_ic_for_annotated_items  # noqa: E402
 
-from impl_graph import FACTORIES, exn_name  # noqa: E402
+from impl_graph import FACTORIES, exn_name, warm_up  # noqa: E402
 
 
 class Ann(Identified, ObservableFeature):
@@ -53,6 +53,8 @@ def observe_case(case):
     g = FACTORIES[case['factory']]().create_graph(edges)
     terms = [MinimalTerm.create_minimal_term(t, 'n', [], False) for t in case['terms']]
     hpo = create_minimal_ontology(g, terms, 'v1')
+    if len(case['edges']) % 2 == 0:
+        warm_up(hpo, list(g), len(case['items']))
     corpus = Corpus([Item([Ann(TermId.from_curie(k), p) for k, p in item]) for item in case['items']])
     kw = {}
     if case['base'] is not None:
